@@ -149,7 +149,8 @@ func birthdayTwin(round uint8, sender uint16) (a, b []byte) {
 type sHandoff struct {
 	Node    uint16
 	From    uint16
-	Bcast   bool
+	Bcast   bool // class of the payload
+	Flag    bool // broadcast flag the orchestrator passed to OnMsg
 	Payload []byte
 	Seq     int
 }
@@ -462,7 +463,9 @@ func runSCase(prop string) func(c sCase) *vh.Outcome {
 		var hs []sHandoff
 		for _, e := range tape.Snapshot() {
 			if e.Kind == "onmsg" && e.Session == sess && isHonest[e.Node] {
-				hs = append(hs, sHandoff{Node: e.Node, From: e.From, Bcast: e.Bcast, Payload: e.Payload, Seq: e.Seq})
+				// the class of a hand-off is the class of the payload (what the receiver-side classifier says), not the flag
+				// the orchestrator passes along: a broadcast-class payload that bypassed the broadcast layer still counts
+				hs = append(hs, sHandoff{Node: e.Node, From: e.From, Bcast: len(e.Payload) > 0 && e.Payload[0] == 1, Flag: e.Bcast, Payload: e.Payload, Seq: e.Seq})
 			}
 		}
 		info.Handoffs = len(hs)
@@ -571,6 +574,9 @@ func sOracleC03(hs []sHandoff, c sCase, log []*sim.Frame, deliveredAt map[int]in
 		}
 		if len(h.Payload) == 0 {
 			return vh.Failf("C03/empty-handoff/level-S", "backend of node %d was handed an empty message attributed to %d", h.Node, h.From)
+		}
+		if h.Flag != h.Bcast {
+			return vh.Failf("C03/class-flag-mismatch/level-S", "backend of node %d was handed payload %q attributed to %d with broadcast=%v although the receiver-side classification of that payload is broadcast=%v (it did not go through the layer that its class requires)", h.Node, h.Payload, h.From, h.Flag, h.Bcast)
 		}
 		wire := append([]byte{0xFF}, h.Payload...)
 		if h.Bcast {
